@@ -32,6 +32,8 @@ type Program struct {
 }
 
 // buildOverlay maps the harness sources into the packages under test.
+var nativeOnly = map[string][]byte{}
+
 func buildOverlay() (map[string][]byte, error) {
 	ov := map[string][]byte{}
 	common, err := os.ReadFile(filepath.Join(verifDir, "harness/common/intrinsics.go.txt"))
@@ -46,7 +48,16 @@ func buildOverlay() (map[string][]byte, error) {
 		}
 		n := 0
 		for _, e := range ents {
-			if !strings.HasSuffix(e.Name(), ".go") || strings.HasSuffix(e.Name(), "_test.go") {
+			if !strings.HasSuffix(e.Name(), ".go") {
+				continue
+			}
+			if strings.HasSuffix(e.Name(), "_test.go") {
+				// native-only test files (model validation): never loaded by the encoder
+				b, err := os.ReadFile(filepath.Join(dir, e.Name()))
+				if err != nil {
+					return nil, err
+				}
+				nativeOnly[filepath.Join(repoDir, p, "zz_verif_"+e.Name())] = b
 				continue
 			}
 			b, err := os.ReadFile(filepath.Join(dir, e.Name()))
